@@ -11,7 +11,7 @@ from vlib.meshreal import Live, apply_op
 TIME_CLASSES = ['at_start', 'before', 'just_after_start', 'inside', 'at_end', 'shortly_after', 'far_after', 'tail',
                 'tau_start', 'tau_end']
 POS_CLASSES = ['interior', 'end_a', 'end_b', 'near_out', 'mid_out', 'zero', 'L', 'node_other', 'uniform', 'across_seam',
-               'next_side']
+               'next_side', 'just_inside']
 
 
 def point_cases(max_ops=25, curves=None, time_classes=TIME_CLASSES, pos_classes=POS_CLASSES):
@@ -24,11 +24,16 @@ def point_cases(max_ops=25, curves=None, time_classes=TIME_CLASSES, pos_classes=
     })
 
 
-def realise(case):
-    """-> (live, elem, t, x_hat, info) ; info: dict(pos=..., rel_out=..., tau=..., ratio=...)"""
-    live = Live(case['spec'])
-    for op in case['ops']:
+def realise(case, hook=None):
+    """-> (live, elem, t, x_hat, info) ; info: dict(pos=..., rel_out=..., tau=..., ratio=...)
+    hook(live, i) is called before the first and after every operation of the history (operator life cycle)"""
+    live = Live(case['spec'], min_hx=1e-4)
+    if hook:
+        hook(live, 0)
+    for i, op in enumerate(case['ops']):
         apply_op(live, op, cap=200)
+        if hook:
+            hook(live, i + 1)
     g = get_geo(case['spec']['curve'])
     leaves = live.leaves()
     e = leaves[case['ei'] % len(leaves)]
@@ -70,6 +75,9 @@ def realise(case):
 
     if xcl == 'interior':
         x = xa + h * (0.001 + 0.998 * v)
+    elif xcl == 'just_inside':
+        d = min(0.4 * h, 1.05e-5 * 10 ** (2.5 * v))          # 1.05e-5 .. 3e-3 inside an end point (absolute)
+        x = xb - d if s > 0 else xa + d
     elif xcl == 'end_a':
         x = xa
     elif xcl == 'end_b':
